@@ -70,6 +70,8 @@ def size_sweep(chk, sizes):
 
 
 def main(tier):
+    # a quarter of this check's worlds keep a debug log through pydrex.io.logfile_enable (a handler listening at DEBUG)
+    layerb.World.debug_log = True
     chk = Check("C01", tier)
     quick = tier != "thorough"
     mc = run_tlc("PyDRexMC", workers=16, timeout=1500)
